@@ -770,6 +770,15 @@ COMPILER_BASE_OPTIONS: T.Mapping[OptionKey, AnyOptionType] = {
     ])
 }
 
+_KT = T.TypeVar('_KT', bound='OptionKey')
+_VT = T.TypeVar('_VT')
+
+def buildtype_first(opts: T.Mapping[_KT, _VT]) -> T.Dict[_KT, _VT]:
+    """Setting buildtype also sets debug and optimization, unless they are
+    given explicitly. Process buildtype before them, so that this does not
+    depend on the order the options were written in."""
+    return dict(sorted(opts.items(), key=lambda kv: kv[0].name != 'buildtype'))
+
 class OptionStore:
     DEFAULT_DEPENDENTS = {'plain': ('plain', False),
                           'debug': ('0', True),
@@ -1117,7 +1126,7 @@ class OptionStore:
 
     def set_from_configure_command(self, D_args: T.Dict[OptionKey, T.Optional[str]]) -> bool:
         dirty = False
-        for key, valstr in D_args.items():
+        for key, valstr in buildtype_first(D_args).items():
             if valstr is not None:
                 dirty |= self.set_user_option(key, valstr)
                 continue
@@ -1295,7 +1304,7 @@ class OptionStore:
         (project_default_options, cmd_line_options, machine_file_options) = self.first_handle_prefix(project_default_options_in,
                                                                                                      cmd_line_options_in,
                                                                                                      machine_file_options_in)
-        for key, valstr in project_default_options.items():
+        for key, valstr in buildtype_first(project_default_options).items():
             # Due to backwards compatibility we ignore build-machine options
             # when building natively.
             if not self.is_cross and key.is_for_build():
@@ -1313,7 +1322,7 @@ class OptionStore:
 
         # ignore subprojects for now for machine file and command line
         # options; they are applied later
-        for key, valstr in itertools.chain(machine_file_options.items(), cmd_line_options.items()):
+        for key, valstr in itertools.chain(buildtype_first(machine_file_options).items(), buildtype_first(cmd_line_options).items()):
             # Due to backwards compatibility we ignore all build-machine options
             # when building natively.
             if not self.is_cross and key.is_for_build():
@@ -1378,7 +1387,9 @@ class OptionStore:
                 options[key] = valstr
 
         # merge everything that has been computed above, while giving self.augments priority
-        for key, valstr in options.items():
+        # (those that exist now: setting buildtype below adds some for debug and optimization)
+        augments = set(self.augments)
+        for key, valstr in buildtype_first(options).items():
             if key.subproject != subproject:
                 if key.subproject in self.subprojects and not self.option_has_value(key, valstr):
                     mlog.warning(f'option {key} is set in subproject {subproject} but has already been processed')
@@ -1390,7 +1401,7 @@ class OptionStore:
 
             self.pending_subproject_options.pop(key, None)
             self.pending_options.pop(key, None)
-            if key not in self.augments:
+            if key not in augments:
                 self.set_user_option(key, valstr, True)
 
         self.subprojects.add(subproject)
